@@ -1,7 +1,7 @@
 SPECIFICATION Spec
 CONSTANTS
   MaxMoves = 1
-  Motions = {"translate", "rotz", "rotx", "mirx", "miry"}
+  Motions = {"translate", "rotz", "rotx", "mirx", "miry", "far"}
   Emit = TRUE
 INVARIANT Isometry
 INVARIANT Parity
